@@ -590,7 +590,10 @@ def issorted(table, key=None, reverse=False, strict=False):
         getkey = comparable_itemgetter(*indices)
     else:
         getkey = Comparable  # table without fields
-    prev = next(it)
+    try:
+        prev = next(it)
+    except StopIteration:
+        return True  # no data rows
     prevkey = getkey(prev)
     for curr in it:
         currkey = getkey(curr)
